@@ -96,18 +96,35 @@ class ExitEvent:
     guards: Tuple[str, ...]
     seq: int
     value: Optional[Rat] = None
+    values: Optional[List[Rat]] = None  # elements of a returned tuple
 
 
 NEG = {"eq0": "ne0", "ne0": "eq0", "lt0": "ge0", "ge0": "lt0", "le0": "gt0", "gt0": "le0"}
 
 
+def _single_atom(k: str) -> bool:
+    """k is `tag[...]` with the bracket opened after the tag closing at the very end."""
+    i = k.find("[")
+    if i < 0 or not k.endswith("]"):
+        return False
+    depth = 0
+    for j in range(i, len(k)):
+        if k[j] == "[":
+            depth += 1
+        elif k[j] == "]":
+            depth -= 1
+            if depth == 0:
+                return j == len(k) - 1
+    return False
+
+
 def negate_key(k: str) -> str:
-    if "[" in k:
+    if _single_atom(k):
         tag, rest = k.split("[", 1)
         if tag in NEG:
             return NEG[tag] + "[" + rest
-    if k.startswith("not[") and k.endswith("]"):
-        return k[4:-1]
+        if tag == "not":
+            return k[4:-1]
     return f"not[{k}]"
 
 
@@ -262,7 +279,13 @@ class StoreCollector:
                         val = self.N().norm(st.value)
                     except Unsupported:
                         val = None
-                self.exits.append(ExitEvent("return", st, cur, tuple(self._guards), self._next_seq(), val))
+                vals = None
+                if isinstance(st.value, ast.Tuple):
+                    try:
+                        vals = [self.N().norm(e) for e in st.value.elts]
+                    except Unsupported:
+                        vals = None
+                self.exits.append(ExitEvent("return", st, cur, tuple(self._guards), self._next_seq(), val, vals))
             elif isinstance(st, (ast.Break, ast.Continue)):
                 self.exits.append(ExitEvent("break" if isinstance(st, ast.Break) else "continue", st, cur,
                                             tuple(self._guards), self._next_seq()))
